@@ -55,8 +55,26 @@ fn hostile_floats() -> Vec<Vec<f32>> {
         vec![0.0], vec![-0.0, 0.0], vec![1e-45, 3e38, 3e38], vec![f32::MAX, f32::MAX, f32::MAX, f32::MAX]]
 }
 pub fn huffman_total() -> u64 {
-    (huffman_vectors().len() * 2 + hostile_floats().len()) as u64
+    (huffman_vectors().len() * 2 + hostile_floats().len() + huffman_vectors().iter().filter(|v| v.len() <= 4).count() * 6) as u64
 }
+/// a weight type whose `Ord` (a safe trait) is not an order
+#[derive(Clone, Debug)]
+struct Weird(u32, u8);
+thread_local! { static FLIP: core::cell::Cell<u32> = core::cell::Cell::new(0); }
+impl PartialEq for Weird { fn eq(&self, o: &Self) -> bool { self.cmp(o) == core::cmp::Ordering::Equal } }
+impl Eq for Weird {}
+impl PartialOrd for Weird { fn partial_cmp(&self, o: &Self) -> Option<core::cmp::Ordering> { Some(self.cmp(o)) } }
+impl Ord for Weird {
+    fn cmp(&self, o: &Self) -> core::cmp::Ordering {
+        use core::cmp::Ordering::*;
+        match self.1 {
+            0 => Less, 1 => Greater, 2 => Equal, 3 => o.0.cmp(&self.0),
+            4 => if (self.0 + o.0) % 2 == 0 { Less } else { Greater },
+            _ => FLIP.with(|f| { f.set(f.get().wrapping_add(1)); [Less, Greater, Equal][(f.get() % 3) as usize] }),
+        }
+    }
+}
+impl core::ops::Add for Weird { type Output = Weird; fn add(self, o: Weird) -> Weird { Weird(self.0.wrapping_add(o.0), self.1) } }
 fn huffman_ops(enc: &EncoderHuffmanTree, dec: &DecoderHuffmanTree, n: usize) {
     let mut syms: Vec<usize> = (0..=2 * n + 3).collect();
     syms.extend([usize::MAX, usize::MAX / 2, usize::MAX / 2 + 1, 1 << 32, (1 << 32) + 1, 1 << 16]);
@@ -104,6 +122,17 @@ pub fn huffman_program(i: u64, sink: &mut ChildSink) {
                 let dec = DecoderHuffmanTree::from_probabilities::<u32, _>(&w);
                 huffman_ops(&enc, &dec, w.len());
             }
+        });
+    } else if i >= 2 * nv + hostile_floats().len() as u64 {
+        let k = i - 2 * nv - hostile_floats().len() as u64;
+        let small: Vec<&Vec<u32>> = vs.iter().filter(|v| v.len() <= 4).collect();
+        let (w, mode) = (small[(k % small.len() as u64) as usize].clone(), (k / small.len() as u64) as u8);
+        let desc = { let w = w.clone(); move || format!("Huffman trees from weights {:?} of a type whose Ord is not an order (mode {mode})", w) };
+        hostile(sink, i, "Huffman codebooks from weights with an inconsistent Ord", desc, || {
+            let ww: Vec<Weird> = w.iter().map(|&x| Weird(x, mode)).collect();
+            let enc = EncoderHuffmanTree::from_probabilities::<Weird, _>(&ww);
+            let dec = DecoderHuffmanTree::from_probabilities::<Weird, _>(&ww);
+            huffman_ops(&enc, &dec, w.len());
         });
     } else {
         let f = hostile_floats()[(i - 2 * nv) as usize].clone();
